@@ -66,6 +66,21 @@ func ruleAtt(svc rules.Service, pub []byte, src, tgt uint64) rules.Result {
 		BeaconBlockRoot: Root32(9), Source: &rules.Checkpoint{Epoch: src, Root: Root32(1)}, Target: &rules.Checkpoint{Epoch: tgt, Root: Root32(2)}})
 }
 
+// spell writes a number the way other tools might: the interchange format carries decimal strings, and a decimal
+// string may have leading zeros or an explicit plus sign and still denote the same number.
+func spell(r *rand.Rand, v int64) string {
+	if v < 0 {
+		return fmt.Sprint(v)
+	}
+	switch r.Intn(8) {
+	case 0:
+		return strings.Repeat("0", 1+r.Intn(5)) + fmt.Sprint(v)
+	case 1:
+		return "+" + fmt.Sprint(v)
+	}
+	return fmt.Sprint(v)
+}
+
 // ruleAtts asks the batch rule about one attestation per key.
 func ruleAtts(svc rules.Service, pubs [][]byte, srcs, tgts []uint64) []rules.Result {
 	ms := make([]*rules.ReqMetadata, len(pubs))
@@ -342,13 +357,13 @@ func c10GenFile(r *rand.Rand, keys []*rig.Key, db map[[48]byte]trip) (*icFile, s
 		}
 		for i := 0; i < nb; i++ {
 			v := near(maxi(cur.Slot, 0))
-			d.Blocks = append(d.Blocks, icBlock{Slot: fmt.Sprint(v)})
+			d.Blocks = append(d.Blocks, icBlock{Slot: spell(r, v)})
 			fm.Slot = maxi(fm.Slot, v)
 			shapes["slot:"+relOf(v, cur.Slot)] = true
 		}
 		for i := 0; i < na; i++ {
 			sv, tv := near(maxi(cur.Src, 0)), near(maxi(cur.Tgt, 0))
-			d.Atts = append(d.Atts, icAtt{Source: fmt.Sprint(sv), Target: fmt.Sprint(tv)})
+			d.Atts = append(d.Atts, icAtt{Source: spell(r, sv), Target: spell(r, tv)})
 			fm.Src, fm.Tgt = maxi(fm.Src, sv), maxi(fm.Tgt, tv)
 			shapes[fmt.Sprintf("src:%s tgt:%s", relOf(sv, cur.Src), relOf(tv, cur.Tgt))] = true
 		}
